@@ -647,6 +647,11 @@ pub fn check_request(ctx: &mut Ctx, rng: &mut Rng, corpus: &Corpus, nodes: &[Nod
                                 ctx.report.violation("model", "C14:lean-full-segment-model-not-exact", format!("full {} vs whole {}", &fu[..fu.len().min(300)], &wh[..wh.len().min(300)]), case_json(&c, parts, "final"));
                             }
                         }
+                        // C14_full_model_eq_cut_model: eviction is invisible on top of any terms truncation
+                        ctx.report.count("model:full-model-vs-cut-model-compared");
+                        if fu != m {
+                            ctx.report.violation("model", "C14:lean-full-model-differs-from-cut-model", format!("full {} vs cut-only {}", &fu[..fu.len().min(300)], &m[..m.len().min(300)]), case_json(&c, parts, "final"));
+                        }
                         // the complete segment model (cut + eviction) = the real result, truncated or not
                         if m == mine && srs == srs_pv && !corpus.docs.is_empty() {
                             ctx.report.count("model:full-segment-model-vs-real-compared");
